@@ -854,6 +854,131 @@ func genHistory(rng *rand.Rand, n int, api bool, unitPool []numTxt) []gcmd {
 	return out
 }
 
+// ---------- family: the same drawing call repeated under changing pens ----------
+
+var c19DrawKinds = []string{"line", "rect", "circle", "clear", "poly", "ellipse", "text", "gridn", "grid"}
+
+func c19IsDraw(name string) bool {
+	switch name {
+	case "line", "rect", "circle", "clear", "poly", "ellipse", "text", "gridn":
+		return true
+	}
+	return false
+}
+
+func c19IsStyle(name string) bool { return name != "move" && !c19IsDraw(name) }
+
+// grid units every tree accepts (no rejected, tiny or thousand-line grids): the family is about the pen, not the unit
+var c19RepeatUnits = []numTxt{c19Lit("10"), c19Lit("20"), c19Lit("25"), c19Lit("50"), c19Lit("100"), c19Lit("1000"), c19Lit("33.3")}
+
+// genDrawOf: one drawing call of the given kind ("grid" = the evy built-in without arguments)
+func genDrawOf(rng *rand.Rand, api bool, kind string) gcmd {
+	switch kind {
+	case "grid":
+		return gcmd{Lst(Sym("gridn"), Float(10), Str("hsl(0deg 100% 0% / 50%)")), "grid"}
+	case "gridn":
+		u, c := c19RepeatUnits[rng.Intn(len(c19RepeatUnits))], c19Pick(rng, c19Colors)
+		return gcmd{Lst(Sym("gridn"), Float(u.v), Str(c)), "gridn " + u.src + " " + evyStr(c)}
+	}
+	for {
+		if c := genCmd(rng, api, nil); c.sx.L[0].S == kind {
+			return c
+		}
+	}
+}
+
+func genStyle(rng *rand.Rand, api bool) gcmd {
+	for {
+		if c := genCmd(rng, api, nil); c19IsStyle(c.sx.L[0].S) {
+			return c
+		}
+	}
+}
+
+// genRepeatHistory: one or two drawing calls (kind given for the first; any of the
+// nine kinds) are issued again and again with identical arguments - optionally
+// each time after the same `move`, so that the geometry is identical as well -
+// in 2..5 rounds.  Between two rounds the pen changes (1..2 style calls: width,
+// colour, stroke, fill, dash, line cap, font), sometimes it does not (the
+// repetitions share a group).  In a round the repeated call stands alone (the
+// only shape between two style changes, or before the end of the program),
+// twice in a row, or at a random place among 1..3 other shapes.  The history
+// starts with or without a style call and ends with or without one.
+// The specification wants one shape per call, each with the pen of its own round.
+func genRepeatHistory(rng *rand.Rand, api bool, kind string) (h []gcmd, shape string) {
+	type unit struct{ pre, draw gcmd }
+	mk := func(k string) unit {
+		u := unit{draw: genDrawOf(rng, api, k)}
+		if rng.Intn(2) == 0 {
+			a, b := c19GenNum(rng), c19GenNum(rng)
+			u.pre = gcmd{Lst(Sym("move"), Float(a.v), Float(b.v)), "move " + a.src + " " + b.src}
+		}
+		return u
+	}
+	reps := []unit{mk(kind)}
+	if rng.Intn(4) == 0 {
+		reps = append(reps, mk(c19DrawKinds[rng.Intn(len(c19DrawKinds))]))
+	}
+	emit := func(u unit) {
+		if u.pre.evy != "" {
+			h = append(h, u.pre)
+		}
+		h = append(h, u.draw)
+	}
+	other := func() {
+		if rng.Intn(8) == 0 {
+			h = append(h, genDrawOf(rng, api, "move"))
+		}
+		h = append(h, genDrawOf(rng, api, c19DrawKinds[rng.Intn(len(c19DrawKinds))])) // a grid here may equal a repeated one, or differ in unit / colour only
+	}
+	rounds := 2 + rng.Intn(4)
+	lone, grouped := 0, 0
+	for i := 0; i < rounds; i++ {
+		nStyle := 1 + rng.Intn(2)
+		if i == 0 && rng.Intn(3) == 0 || i > 0 && rng.Intn(6) == 0 {
+			nStyle = 0
+		}
+		for j := 0; j < nStyle; j++ {
+			h = append(h, genStyle(rng, api))
+		}
+		u := reps[rng.Intn(len(reps))]
+		switch k := rng.Intn(10); {
+		case k < 4: // alone
+			emit(u)
+			lone++
+		case k < 5: // twice in a row
+			emit(u)
+			emit(u)
+			grouped++
+		default: // among other shapes
+			n := 1 + rng.Intn(3)
+			at := rng.Intn(n + 1)
+			for j := 0; j <= n; j++ {
+				if j == at {
+					emit(u)
+				} else {
+					other()
+				}
+			}
+			grouped++
+		}
+	}
+	if rng.Intn(2) == 0 {
+		h = append(h, genStyle(rng, api))
+	}
+	switch {
+	case lone > 0 && grouped > 0:
+		shape = "lone+grouped"
+	case lone > 1:
+		shape = "lone+lone"
+	case lone == 1:
+		shape = "lone-once"
+	default:
+		shape = "grouped-only"
+	}
+	return h, shape
+}
+
 func c19Nontrivial(cmds []SX) bool {
 	draws, styleBetween, seenDraw := 0, false, false
 	for _, c := range cmds {
@@ -1474,7 +1599,9 @@ func runC19(cfg Config, r *Result) {
 		"run on svg.GraphicsPlatform in-process (mode api), as evy programs through the built binary `evy run --svg-out` (mode binary), " +
 		"the same programs with the --svg-out file already present (mode binary-overwrite: a longer / much longer earlier SVG document, the same document plus a tail, longer / one byte longer / same-length junk, a shorter prefix, an empty file; the file left must equal the fresh-path document byte for byte and match the model), " +
 		"with a positive gridn unit around the proposed minimum 0.01 (1e-17, 5e-324, 1e-13, 1e-6, 0.0099999, 0.01, 0.0100001; thorough: 0.001) through the binary under a short timeout (mode gridn-tiny), " +
-		"and with a gridn unit <= 0 through the binary under timeout/ulimit (mode gridn-rejected: exit 1, document of the calls before it); non-trivial = at least 2 drawing calls with a style change after a drawing call; " +
+		"and with a gridn unit <= 0 through the binary under timeout/ulimit (mode gridn-rejected: exit 1, document of the calls before it); " +
+		"the same drawing call repeated with identical arguments (every shape kind in turn: line/rect/circle/clear/poly/ellipse/text/gridn/grid; optionally after the same move each time; one or two repeated calls per history) in 2..5 rounds with the pen changed between the rounds (or not), " +
+		"the repeated call alone between two style changes / before the end, twice in a row, or anywhere inside a group of 2..4 shapes (modes api and binary); non-trivial = at least 2 drawing calls with a style change after a drawing call; " +
 		"distinct = distinct (mode, command list)"
 	if cfg.Replay != "" {
 		b, err := os.ReadFile(cfg.Replay)
@@ -1600,6 +1727,25 @@ func runC19(cfg Config, r *Result) {
 	for _, h := range hs {
 		c19Case(h, "gridn-tiny", model, r)
 	}
+	// the same drawing call again and again under changing pens (own generator, after everything else:
+	// the cases above stay as they were); every shape kind in turn, the two grid forms twice as often
+	tRep := time.Now()
+	rrng := rand.New(rand.NewSource(cfg.Rng.Int63()))
+	kinds := append(append([]string{}, c19DrawKinds...), "gridn", "grid")
+	rep := func(i int, api bool, mode string) {
+		kind := kinds[i%len(kinds)]
+		h, shape := genRepeatHistory(rrng, api, kind)
+		r.Dist("repeat:" + mode + ":" + kind)
+		r.Dist("repeat-rounds:" + shape)
+		c19Case(h, mode, model, r)
+	}
+	for i, n := 0, cfg.N(110, 3300); i < n; i++ {
+		rep(i, true, "api")
+	}
+	for i, n := 0, cfg.N(11, 110); i < n; i++ {
+		rep(i, false, "binary")
+	}
+	r.Note("wall: repeated-call family %.1fs", time.Since(tRep).Seconds())
 }
 
 func init() { register("C19", runC19) }
